@@ -8,7 +8,7 @@
     Clauses of one family are grouped in one theorem (one [Print Assumptions] per theorem). *)
 From Coq Require Import Reals ZArith List.
 From Coquelicot Require Import Coquelicot.
-From LP Require Import Num NumR C07_Model C07_Proofs_Cont C07_Proofs_ErfBound C07_Proofs_Disc C07_Proofs_Chi C07_Proofs_Ex C07_Proofs_Kde.
+From LP Require Import Num NumR C07_Model C07_Proofs_Cont C07_Proofs_ErfBound C07_Proofs_Disc C07_Proofs_Chi C07_Proofs_Ex C07_Proofs_Kde C07_Proofs_Coh.
 Import ListNotations.
 Local Open Scope R_scope.
 
@@ -369,3 +369,162 @@ Proof.
                 (fun wsum bw => kde_bandwidth_manual data wsum bw))).
 Qed.
 Print Assumptions C07_kde_automatic_bandwidth.
+
+(** ** Fourth pass (C07_Proofs_Coh.v; non-vacuity examples at the end of that file) *)
+
+(** Poisson, "the CDF is non-decreasing from 0 to 1" in the count: the partial sums of the masses are non-decreasing in n (any number of steps)
+    and converge to 1 — the masses sum to one — for every mean *)
+Theorem C07_poisson_cdf_from_0_to_1 mu :
+  is_lim_seq (fun n => sum_f_R0 (poisv mu) n) 1 /\
+  (0 <= mu -> forall n d, sum_f_R0 (poisv mu) n <= sum_f_R0 (poisv mu) (n + d)%nat).
+Proof. exact (conj (pois_sum_lim mu) (fun H n d => pois_sum_mono_n mu n d H)). Qed.
+Print Assumptions C07_poisson_cdf_from_0_to_1.
+
+(** CDF_Poisson(., n) as a function of the mean: derivative = minus the mass at n, so it is non-increasing, strictly decreasing, 1-Lipschitz,
+    and a mean with a given CDF value is unique (what Inv_CDF_Poisson looks for) *)
+Theorem C07_poisson_cdf_in_the_mean (n : nat) :
+  (forall mu, is_derive (fun m => sum_f_R0 (poisv m) n) mu (- poisv mu n)) /\
+  (forall m1 m2, 0 <= m1 -> m1 <= m2 -> sum_f_R0 (poisv m2) n <= sum_f_R0 (poisv m1) n) /\
+  (forall m1 m2, 0 <= m1 -> m1 < m2 -> sum_f_R0 (poisv m2) n < sum_f_R0 (poisv m1) n) /\
+  (forall m1 m2, 0 <= m1 -> 0 <= m2 -> Rabs (sum_f_R0 (poisv m1) n - sum_f_R0 (poisv m2) n) <= Rabs (m1 - m2)) /\
+  (forall m1 m2, 0 <= m1 -> 0 <= m2 -> sum_f_R0 (poisv m1) n = sum_f_R0 (poisv m2) n -> m1 = m2).
+Proof.
+  exact (conj (pois_sum_derive n) (conj (pois_sum_decr_mu n) (conj (pois_sum_strict n) (conj (pois_sum_lipschitz n) (pois_sum_inverse_unique n))))).
+Qed.
+Print Assumptions C07_poisson_cdf_in_the_mean.
+
+(** "Inv_CDF_Poisson inverts its CDF to its stated accuracy", n > 0: if GammaQ(mu, n+1) returns Q(n+1, mu) = 1 - (1/n!) int_0^mu t^n e^-t dt and
+    Inv_GammaQ(c, n+1) returns a mean within delta of the root mu*, then CDF_Poisson(Inv_CDF_Poisson(n, c), n) is within delta of c *)
+Theorem C07_inv_cdf_poisson_accuracy gammaQ inv_gammaQ (n : nat) c m mustar delta :
+  (0 < n)%nat -> (Z.of_nat n + 1 < 4294967296)%Z -> 0 <= c <= 1 ->
+  (forall mu, 0 <= mu -> gammaQ mu (INR (S n)) = Ok (1 - RInt (fun t => exp (- t) * t ^ n / INR (fact n)) 0 mu)) ->
+  inv_gammaQ c (INR (S n)) = Ok m -> 0 <= m ->
+  0 <= mustar -> 1 - RInt (fun t => exp (- t) * t ^ n / INR (fact n)) 0 mustar = c -> Rabs (m - mustar) <= delta ->
+  inv_cdf_poisson ROps inv_gammaQ (Z.of_nat n) c = Ok m /\
+  exists q, cdf_poisson ROps gammaQ m (Z.of_nat n) = Ok q /\ q = sum_f_R0 (poisv m) n /\ Rabs (q - c) <= delta.
+Proof. exact (inv_cdf_poisson_accuracy gammaQ inv_gammaQ n c m mustar delta). Qed.
+Print Assumptions C07_inv_cdf_poisson_accuracy.
+
+(** "Quantile_Gauss inverts its CDF to its stated accuracy" in probability units: CDF_Gauss is 1/(sqrt(2 pi) sigma)-Lipschitz (the density's peak), hence
+    |Inv_Erf(2p-1) - erfinv(2p-1)| <= delta gives |CDF_Gauss(Quantile_Gauss(p)) - p| <= delta/sqrt(pi), whatever mu and sigma > 0 *)
+Theorem C07_quantile_gauss_probability_accuracy mu s : 0 < s ->
+  (forall x, pdf_gauss ROps PI x mu s <= 1 / sqrt (2 * PI) / s) /\
+  (forall x y, Rabs (cdf_gauss ROps x mu s - cdf_gauss ROps y mu s) <= 1 / sqrt (2 * PI) / s * Rabs (x - y)) /\
+  (forall inv_erf p e t delta, inv_erf (2 * p - 1) = Ok e -> Rerf t = 2 * p - 1 -> Rabs (e - t) <= delta ->
+     exists q, quantile_gauss ROps inv_erf p mu s = Ok q /\ Rabs (cdf_gauss ROps q mu s - p) <= delta / sqrt PI).
+Proof.
+  exact (fun H => conj (gauss_pdf_le_peak mu s H) (conj (gauss_cdf_lipschitz mu s H)
+          (fun inv_erf p e t delta => quantile_probability_error inv_erf p mu s e t delta H))).
+Qed.
+Print Assumptions C07_quantile_gauss_probability_accuracy.
+
+(** Inv_Erf (Special_Functions.cpp), the function behind Quantile_Gauss, with Find_Root as a parameter: +-10 within 1e-16 of +-1, otherwise the
+    process is terminated for |p| >= 1, otherwise Find_Root(erf(x) - p, -10, 10, 1e-4) *)
+Theorem C07_inv_erf_guards find_root p :
+  (Rabs (p - 1) < 1 / 10000000000000000 -> inv_erf_fn ROps find_root p = Ok 10) /\
+  (Rabs (p + 1) < 1 / 10000000000000000 -> inv_erf_fn ROps find_root p = Ok (- 10)) /\
+  (1 / 10000000000000000 <= Rabs (p - 1) -> 1 / 10000000000000000 <= Rabs (p + 1) -> 1 <= Rabs p -> inv_erf_fn ROps find_root p = Exit) /\
+  (Rabs p < 1 -> 1 / 10000000000000000 <= Rabs (p - 1) -> 1 / 10000000000000000 <= Rabs (p + 1) ->
+     inv_erf_fn ROps find_root p = find_root (fun x => Rerf x - p) (- 10) 10 (1 / 10000)).
+Proof. exact (inv_erf_cases find_root p). Qed.
+Print Assumptions C07_inv_erf_guards.
+
+(** the bracket [-10, 10]: for |p| <= 1 - 2^-53 (every double strictly between -1 and 1) the function handed to Find_Root changes sign over it
+    (1 - erf 10 <= e^-100 < 2^-53), and erf t = p has exactly one solution, strictly inside *)
+Theorem C07_inv_erf_bracket p : Rabs p <= 1 - 1 / 9007199254740992 ->
+  Rerf (- 10) - p < 0 < Rerf 10 - p /\
+  exists t, - 10 < t < 10 /\ Rerf t = p /\ forall t', Rerf t' = p -> t' = t.
+Proof. exact (inv_erf_bracket p). Qed.
+Print Assumptions C07_inv_erf_bracket.
+
+(** the accuracy chain Find_Root -> Inv_Erf -> Quantile_Gauss -> CDF_Gauss for the library's own Inv_Erf: if Find_Root meets its request
+    (returns e within 1e-4 of the root t of erf(x) - (2p-1); property C02), Quantile_Gauss(p) is within sqrt2 sigma 1e-4 of the true quantile and
+    CDF_Gauss(Quantile_Gauss(p)) within 1e-4/sqrt(pi) < 5.78e-5 of p, for 2^-54 <= p <= 1 - 2^-54 *)
+Theorem C07_quantile_gauss_lib_accuracy find_root p mu s e t : 0 < s ->
+  1 / 18014398509481984 <= p <= 1 - 1 / 18014398509481984 ->
+  find_root (fun x => Rerf x - (2 * p - 1)) (- 10) 10 (1 / 10000) = Ok e ->
+  Rerf t = 2 * p - 1 -> Rabs (e - t) <= 1 / 10000 ->
+  inv_erf_fn ROps find_root (2 * p - 1) = Ok e /\
+  exists q, quantile_gauss_lib ROps find_root p mu s = Ok q /\
+            Rabs (q - (mu + sqrt 2 * s * t)) <= sqrt 2 * s * (1 / 10000) /\
+            cdf_gauss ROps (mu + sqrt 2 * s * t) mu s = p /\
+            Rabs (cdf_gauss ROps q mu s - p) <= 1 / 10000 / sqrt PI /\ 1 / 10000 / sqrt PI < 578 / 10000000.
+Proof. exact (quantile_gauss_lib_accuracy find_root p mu s e t). Qed.
+Print Assumptions C07_quantile_gauss_lib_accuracy.
+
+(** p = 1 and p = 0 are answered mu +- 10 sqrt2 sigma, where the CDF is within e^-100/2 of 1 resp. 0; p outside [0,1] by 5e-17 or more terminates the process *)
+Theorem C07_quantile_gauss_lib_ends find_root mu s : 0 < s ->
+  quantile_gauss_lib ROps find_root 1 mu s = Ok (mu + sqrt 2 * s * 10) /\
+  quantile_gauss_lib ROps find_root 0 mu s = Ok (mu + sqrt 2 * s * - 10) /\
+  1 - exp (- 100) / 2 <= cdf_gauss ROps (mu + sqrt 2 * s * 10) mu s < 1 /\
+  0 < cdf_gauss ROps (mu + sqrt 2 * s * - 10) mu s <= exp (- 100) / 2 /\
+  (forall p, p <= - (1 / 10000000000000000) \/ 1 + 1 / 10000000000000000 <= p -> quantile_gauss_lib ROps find_root p mu s = Exit).
+Proof. exact (quantile_gauss_lib_ends find_root mu s). Qed.
+Print Assumptions C07_quantile_gauss_lib_ends.
+
+(** PDF_Gauss_2D: positive, the product of the two one-dimensional normal densities, and its iterated integral over any rectangle
+    [a,b] x [c,d] is the product of the two CDF differences *)
+Theorem C07_gauss_2d mx my sx sy : 0 < sx -> 0 < sy ->
+  (forall x y, 0 < pdf_gauss_2d ROps PI x y mx my sx sy /\
+               pdf_gauss_2d ROps PI x y mx my sx sy = pdf_gauss ROps PI x mx sx * pdf_gauss ROps PI y my sy) /\
+  (forall a b c d,
+     (forall x, is_RInt (fun y => pdf_gauss_2d ROps PI x y mx my sx sy) c d
+                  (pdf_gauss ROps PI x mx sx * (cdf_gauss ROps d my sy - cdf_gauss ROps c my sy))) /\
+     is_RInt (fun x => RInt (fun y => pdf_gauss_2d ROps PI x y mx my sx sy) c d) a b
+       ((cdf_gauss ROps b mx sx - cdf_gauss ROps a mx sx) * (cdf_gauss ROps d my sy - cdf_gauss ROps c my sy))).
+Proof.
+  exact (fun Hx Hy => conj (fun x y => conj (gauss2d_pos x y mx my sx sy Hx Hy)
+                                            (gauss2d_factor x y mx my sx sy (Rgt_not_eq _ _ Hx) (Rgt_not_eq _ _ Hy)))
+                           (fun a b c d => gauss2d_rectangle mx my sx sy a b c d Hx Hy)).
+Qed.
+Print Assumptions C07_gauss_2d.
+
+(** chi-bar-square with non-negative weights (any number of them): the density is >= 0 whatever GammaLn returns; if the weights sum to at most 1 and
+    the component CDFs the library computes lie in [0,1] and are non-decreasing on [0, inf), the clamp is inactive, the mixture CDF lies in [0,1]
+    and is non-decreasing on the whole real line *)
+Theorem C07_chibar_nonnegative_weights gammaLn gammaP ws : List.Forall (fun w => 0 <= w) ws ->
+  (forall x v, pdf_chi_bar_square ROps gammaLn x ws = Ok v -> 0 <= v) /\
+  (forall c : Z -> R -> R,
+     (forall d x, 0 <= x -> cdf_chi_square ROps gammaP x (IZR d) = Ok (c d x)) ->
+     (forall d x, 0 <= x -> 0 <= c d x <= 1) -> (forall d x y, 0 <= x -> x <= y -> c d x <= c d y) -> wtotal ws <= 1 ->
+     (forall x, 0 <= x -> cdf_chi_bar_square ROps gammaP x ws = Ok (mixsum (fun k => c k x) ws 0)) /\
+     (forall x, 0 <= val (cdf_chi_bar_square ROps gammaP x ws) <= 1) /\
+     (forall x y, x <= y -> val (cdf_chi_bar_square ROps gammaP x ws) <= val (cdf_chi_bar_square ROps gammaP y ws))).
+Proof.
+  exact (fun Hw => conj (chibar_pdf_nonneg gammaLn ws Hw)
+          (fun c Hc Hr Hm Ht => conj (chibar_cdf_val gammaP ws Hw c Hc Hr Ht)
+             (conj (chibar_cdf_range gammaLn gammaP ws Hw c Hc Hr Ht) (chibar_cdf_monotone gammaLn gammaP ws Hw c Hc Hr Hm Ht)))).
+Qed.
+Print Assumptions C07_chibar_nonnegative_weights.
+
+(** "the CDF difference over any interval equals the integral of the density" for the mixture, 0 < u <= v: carried from the components of
+    non-zero weight (zero-padded weight vectors need nothing for the padding); the dof-0 step is constant on (0, inf) and has no density *)
+Theorem C07_chibar_cdf_difference_is_integral gammaLn gammaP ws (c p : Z -> R -> R) u v :
+  List.Forall (fun w => 0 <= w) ws -> wtotal ws <= 1 ->
+  (forall d x, 0 <= x -> cdf_chi_square ROps gammaP x (IZR d) = Ok (c d x)) -> (forall d x, 0 <= x -> 0 <= c d x <= 1) ->
+  (forall d x, 0 < x -> pdf_chi_square ROps gammaLn x (IZR d) = Ok (p d x)) ->
+  0 < u -> u <= v ->
+  (forall k, (1 <= k < Z.of_nat (length ws))%Z -> nth (Z.to_nat k) ws 0 <> 0 -> is_RInt (p k) u v (c k v - c k u)) ->
+  is_RInt (fun x => val (pdf_chi_bar_square ROps gammaLn x ws)) u v
+          (val (cdf_chi_bar_square ROps gammaP v ws) - val (cdf_chi_bar_square ROps gammaP u ws)).
+Proof. exact (fun Hw Ht Hc Hr Hp => chibar_is_RInt gammaLn gammaP ws Hw c Hc Hr Ht p Hp u v). Qed.
+Print Assumptions C07_chibar_cdf_difference_is_integral.
+
+(** KDE.  Full clause: "the kernel density estimate is a non-negative density integrating to one over its window".
+    Proved here: what Perform_KDE tabulates.  If the table is accepted, all 150 rows sample ONE function f(x) = sum_e w_e K((x - p_e)/h) / (h W) on the
+    grid x_k = xmin + k (xmax - xmin)/149, where e runs over the sorted sample extended by the Cowling-Hall pseudo data ([kde_ext], independent of x);
+    K((x-p)/h)/h is the normal density, so int_u^v f = sum_e w_e (Phi((v-p_e)/h) - Phi((u-p_e)/h)) / W, which for non-negative weights lies between 0 and
+    W_ext / W (sample of any size).  NOT proved: that the returned interpolant integrates to one (the division by the adaptive-Simpson integral of the Steffen interpolant). *)
+Theorem C07_kde_estimate_is_mixture_partial data xmin xmax bw t :
+  perform_kde ROps PI data xmin xmax bw = Ok t ->
+  let wsum := fold_left (fun acc d => acc + snd d) data 0 in
+  let h := kde_bandwidth ROps data wsum bw in
+  let sorted := sort_dp ROps data in
+  let ext := kde_ext sorted sorted 0 (ntrunc ROps (IZR (Z.of_nat (length data)) / 3)) xmin in
+  let f := fun x => ksum ext x h / (h * wsum) in
+  (forall k, (k < 150)%nat -> nth k t dflt = (xmin + IZR (Z.of_nat k) * ((xmax - xmin) / 149), f (xmin + IZR (Z.of_nat k) * ((xmax - xmin) / 149)))) /\
+  (0 < h -> wsum <> 0 -> forall u v, is_RInt f u v (kmass ext u v h / wsum)) /\
+  (0 < h -> 0 < wsum -> List.Forall (fun d => 0 <= snd d) data ->
+     forall u v, u <= v -> 0 <= kmass ext u v h / wsum <= wtotal (map snd ext) / wsum).
+Proof. exact (perform_kde_mixture data xmin xmax bw t). Qed.
+Print Assumptions C07_kde_estimate_is_mixture_partial.
